@@ -148,22 +148,44 @@ def ob_simple_plan(cx):
         todo = SymSet(revs)
     else:
         todo = set(revs)
-    plan = R.generate_simple_plan(todo, None, None, ONTO, Graph, lambda old, ps: b"new-" + old)
+    skip = bool(cx.choose("skip_full_merged", 0, 1))
+    plan = R.generate_simple_plan(todo, None, None, ONTO, Graph, lambda old, ps: b"new-" + old, skip_full_merged=skip)
     items = list(plan.items())
-    cx.require(len(items) == n, "plan rewrites %d revisions, the set has %d" % (len(items), n))
-    for r in revs:
-        cx.require(any(T(k == r) for k, _v in items), "a revision of the set is missing from the plan")
+
+    def planned(r):
+        return any(T(k == r) for k, _v in items)
+    omitted = []
+    for r, ps in zip(revs, parents):
+        if not planned(r):
+            # only a merge that stops being one may be left out, and only on request: its merged-in parent is already in the
+            # new base's ancestry, or its left-hand parent is (then the merged-in parent's rewrite takes the left-hand place)
+            cx.require(skip and len(ps) == 2 and (anc(ps[1], ONTO) or anc(ps[0], ONTO)),
+                       "a revision of the set is missing from the plan" + (" (skip_full_merged: neither of its parents is "
+                       "part of the new base's history)" if skip else ""))
+            omitted.append(r)
+            cx.cover("fully_merged_skipped")
+    cx.require(len(items) == n - len(omitted), "plan rewrites %d revisions, the set has %d" % (len(items), n - len(omitted)))
+    rewritten = [r for r in revs if not any(T(r == o) for o in omitted)]
     for old, (new, nps) in items:
         cx.require(new == b"new-" + old, "new id not generated from the old id")
         cx.require(len(nps) >= 1, "rewritten revision without parents")
         first = nps[0]
-        cx.require(T(first == ONTO) or any(T(first == b"new-" + r) for r in revs),
+        cx.require(T(first == ONTO) or any(T(first == b"new-" + r) for r in rewritten),
                    "left-hand parent of a rewritten revision is neither the new base nor a rewritten revision")
         for p in nps:
-            cx.require(not any(T(p == r) for r in revs),
+            cx.require(not any(T(p == r) for r in rewritten),
                        "a rewritten revision keeps the OLD id of a revision that is itself rewritten as its parent")
-            ok = T(p == ONTO) or T(p == OTHER) or T(p == BASE) or any(T(p == b"new-" + r) for r in revs)
+            ok = T(p == ONTO) or T(p == OTHER) or T(p == BASE) or any(T(p == b"new-" + r) for r in rewritten) or \
+                any(T(p == r) for r in omitted)
             cx.require(ok, "unknown parent in the plan")
+        ops = parents_of(old)
+        if len(ops) == 2 and not anc(ops[1], ONTO):
+            # the merged-in parent is not in the new base's history: the rewritten merge must still merge it (or its rewrite)
+            img = b"new-" + ops[1] if any(T(ops[1] == r) for r in rewritten) else ops[1]
+            cx.require(any(T(p == img) for p in nps), "a rewritten merge lost its merged-in parent (the plan is no longer a "
+                       "rewrite of that revision)")
+            if anc(ops[1], ops[0]):
+                cx.cover("merged_parent_is_ancestor_of_left_parent")
         if len(nps) > 1:
             cx.cover("merge")
     if any(any(T(p == OTHER) for p in ps) for ps in parents):
@@ -285,7 +307,7 @@ def obligations(tier):
         Ob("header_mismatch", ob_header, [(RB, dict(symdict=True))], p, to, 1, ["rejected"],
            bounds="texts <= %(ltext)d bytes (too short to carry the header)" % p),
         Ob("simple_plan", ob_simple_plan, [(RB, dict(symdict=True))], dict(nrevs=3 if q else 4), to, 2 if q else 1,
-           ["merge", "outside_merge", "chain"],
+           ["merge", "outside_merge", "chain", "fully_merged_skipped", "merged_parent_is_ancestor_of_left_parent"],
            bounds="<= %d revisions to rebase with 1..2 parents each; revisions and parents are symbolic ids (the solver "
                   "decides the shape: chains, diamonds inside the set, merges of a revision from outside), fixed common "
                   "ancestor and new base" % (3 if q else 4)),
